@@ -202,7 +202,7 @@ def handle (op : String) (args : List String) : Option String :=
           | some (s', e) =>
             -- the yields (for the harness' validity pass): what forward chaining produced, in order
             let ys := match (match p with | .thin => parsePackStream inf Sha1.sha1 inp | .addPack => parsePackData inf inp) with
-              | .ok es => (resolveAll Sha1.sha1 (if kind = "disk" then fun _ => true else valid) s.lookup es).objs
+              | .ok es => (resolveAll Cfg.current.rejectDeltaCycles Sha1.sha1 (if kind = "disk" then fun _ => true else valid) s.lookup es).objs
               | .error _ => []
             let st := match e with | none => "ok" | some e => errStr e
             let yl := if ys.isEmpty then "-" else String.intercalate "," (ys.map showYield)
